@@ -68,8 +68,7 @@ theorem machine_refines_bigstep_exprs_partial (p : Program)
   case val v =>
     obtain ⟨V', h1⟩ := h
     obtain ⟨n, hn⟩ := MS_sound h1 [] 0
-    have hd := step_done p _ v V' (0 + n) _ (by simp [F] : (F (initFrame []) [] (v :: V') _).exprs = []) rfl
-    exact ⟨n + 1, _, runN_last _ _ n _ hn hd (by intro x; simp), by simp [setTop, Q]⟩
+    exact finish_done p _ _ n _ v V' _ _ hn
   case err er =>
     obtain ⟨g, h1, h2⟩ := h
     obtain ⟨n, hn⟩ := MS_sound h1 [] 0
